@@ -1093,7 +1093,15 @@ struct Digit {
             if (diff <= precision) {
                 if (fraction_length > precision) {
                     index += SizeT(fraction_length - (precision + SizeT{1}));
-                    roundStringNumber(stream, index, power_increased, (round_up | (diff != 0)));
+
+                    bool above_half = round_up;
+
+                    // Any nonzero digit below the one being rounded on means the value is above the halfway point.
+                    for (SizeT below = started_at; (below < index) && !above_half; ++below) {
+                        above_half = (storage[below] != DigitUtils::DigitChar::Zero);
+                    }
+
+                    roundStringNumber(stream, index, power_increased, above_half);
 
                     Char_T       *number = (storage + index);
                     const Char_T *last   = stream.Last();
